@@ -3,6 +3,7 @@ package props
 import (
 	"fmt"
 	"math"
+	"math/big"
 	"strconv"
 	"strings"
 
@@ -693,6 +694,7 @@ func c03ModuleLevel(r *fw.Rec) {
 	c03AddrSpaces(r)
 	c03NamedAliases(r)
 	c03FloatFromDouble(r)
+	c03HalfFromDouble(r)
 }
 
 // c03FloatFromDouble builds float constants from Go float64 values that are
@@ -745,6 +747,79 @@ func c03FloatFromDouble(r *fw.Rec) {
 	}
 	r.Nontrivial(text)
 	r.TallyN("constructors", "float-from-double", len(vals))
+}
+
+// c03HalfFromDouble is the same for half: constant.NewFloat(types.Half, x) must
+// print the half nearest to x (ties to even), infinity from 65520 on, zero or a
+// subnormal below 2^-14. The expected bits are computed here from math/big.
+func c03HalfFromDouble(r *fw.Rec) {
+	halfBits := func(x float64) uint16 {
+		sign := uint16(0)
+		if math.Signbit(x) {
+			sign = 0x8000
+		}
+		a := math.Abs(x)
+		switch {
+		case a >= 65520:
+			return sign | 0x7C00
+		case a < 0x1p-14:
+			return sign | uint16(math.RoundToEven(a*0x1p24))
+		}
+		f, _ := new(big.Float).SetPrec(11).SetFloat64(a).Float64()
+		fr, e := math.Frexp(f) // f = fr * 2^e, fr in [0.5, 1)
+		mant := uint16(fr*2048) & 0x3FF
+		return sign | uint16(e-1+15)<<10 | mant
+	}
+	vals := []float64{0.1, -0.1, 1.0 / 3, 1.5, 65504, 65519.99, 65520, 1e5, 131008, 1e10, 1e38, 1e300, -1e300, 6e-8, 2.9e-8, 2.98023223876953125e-8, 3e-8, 1e-8, 6.1e-5, 6.097555160522461e-05, 2049, 2051, -0.0}
+	m := ir.NewModule()
+	for i, v := range vals {
+		m.NewGlobalDef(fmt.Sprintf("h%d", i), constant.NewFloat(types.Half, v))
+	}
+	text, pp := printGuard(m)
+	if pp != "" {
+		r.Violate(fw.Violation{Key: "print-panics/half-from-double", What: firstLine(pp)})
+		return
+	}
+	out, msg, ok, err := llvmref.Reading(text)
+	if err != nil {
+		r.Inconclusive("llvm tool failure")
+		return
+	}
+	if !ok {
+		r.Violate(fw.Violation{Key: "llvm-rejects/half-from-double", Input: text, What: "LLVM rejects a half constant built with constant.NewFloat(types.Half, x): " + firstLine(lastDiag(msg))})
+		return
+	}
+	// bit patterns as LLVM reads them: bitcast to i16 is folded by llvm-as
+	var probe strings.Builder
+	for _, l := range strings.Split(out, "\n") {
+		f := strings.Fields(l)
+		if len(f) == 5 && strings.HasPrefix(f[0], "@h") {
+			fmt.Fprintf(&probe, "%s = global i16 bitcast (half %s to i16)\n", f[0], f[4])
+		}
+	}
+	out2, _, ok2, err2 := llvmref.Reading(probe.String())
+	if err2 != nil || !ok2 {
+		r.Inconclusive("llvm tool failure")
+		return
+	}
+	got := map[string]uint16{}
+	for _, l := range strings.Split(out2, "\n") {
+		f := strings.Fields(l)
+		if len(f) == 5 && strings.HasPrefix(f[0], "@h") {
+			n, _ := strconv.ParseInt(f[4], 10, 32)
+			got[f[0][1:]] = uint16(n)
+		}
+	}
+	for i, v := range vals {
+		r.Eval(1)
+		have, seen := got[fmt.Sprintf("h%d", i)]
+		if want := halfBits(v); !seen || have != want {
+			r.Violate(fw.Violation{Key: "half-from-double/not-nearest", Input: text, What: fmt.Sprintf("constant.NewFloat(types.Half, %v) prints a literal LLVM reads as the bit pattern 0x%04X; the nearest half is 0x%04X", v, have, want)})
+			return
+		}
+	}
+	r.Nontrivial(text)
+	r.TallyN("constructors", "half-from-double", len(vals))
 }
 
 // c03NamedAliases builds with named non-struct types (`%T = type i32*`,
